@@ -553,6 +553,15 @@ pub fn check_against_model(d: &Dump, m: &crate::gen::Model, contents_readable: b
             expect(format!("pack[{p}]"), Leaf::Absent);
             continue;
         }
+        if m.unavailable & (1 << (p - 1)) != 0 {
+            // a pack that can be found nowhere is reported missing, with its description
+            match d.get(&format!("pack[{p}]")) {
+                Some(Leaf::Missing(_)) => {}
+                // (reported through `expect` so that there is one collector of mismatches)
+                _ => expect(format!("pack[{p}]"), Leaf::Missing("<the pack's description>".into())),
+            }
+            continue;
+        }
         if !contents_readable {
             break;
         }
@@ -571,6 +580,9 @@ pub fn check_against_model(d: &Dump, m: &crate::gen::Model, contents_readable: b
     for c in &m.contents {
         if !contents_readable {
             break;
+        }
+        if m.unavailable & (1 << (c.pack - 1)) != 0 {
+            continue;
         }
         let base = format!("pack[{}]/content[{}]", c.pack, c.content_id);
         expect(format!("{base}/size"), Leaf::Val(c.bytes.len().to_string()));
